@@ -9,12 +9,12 @@ def commits():
 
 CLAIMED = {
  "C05": dict(design="DESIGN.md §4 C05",
-   text="Seeded search over simulated executions of the real tscreen input pipeline and baseScreen event API: every interleaving decision between the input reader, the main loop, posters, consumers (PollEvent or ChannelEvents) and the terminal, every ready-select choice, read partition, poller stall and resize is drawn from the seed; the recorded ledger of causes and deliveries is checked for exactly-once, order, PostEvent result <=> delivery, HasPendingEvent, channel close and When() bounds after a final drain; PostEvent must never park (it enqueues or reports a full queue at once); the final Fini finds the screen running, suspended, or suspended after a Resume whose tty start failed, and must close the ChannelEvents channel / release PollEvent each time; one Suspend/Resume may occur in the application's script (events already queued and accepted posts survive it; undecoded input is dropped); the polling goroutine may also draw between polls (an event loop that also draws must never deadlock against the input pipeline). Sampling, not proof: a clean batch is evidence over the seeds run.",
+   text="Seeded search over simulated executions of the real tscreen input pipeline and baseScreen event API: every interleaving decision between the input reader, the main loop, posters, consumers (PollEvent or ChannelEvents) and the terminal, every ready-select choice, read partition, poller stall and resize is drawn from the seed; the recorded ledger of causes and deliveries is checked for exactly-once, order, PostEvent result <=> delivery, HasPendingEvent, channel close and When() bounds after a final drain; PostEvent must never park (it enqueues or reports a full queue at once); the final Fini finds the screen running, suspended, or suspended after a Resume whose tty start failed, and must close the ChannelEvents channel / release PollEvent each time; one Suspend/Resume may occur in the application's script (events already queued and accepted posts survive it; undecoded input is dropped); the polling goroutine may also draw between polls (an event loop that also draws must never deadlock against the input pipeline); typed text may arrive in a legacy single- or double-byte locale. Sampling, not proof: a clean batch is evidence over the seeds run.",
    note="Trusted: the simulator (simrt) and the source instrumentation (simrewrite) preserve Go semantics (select among ready cases chosen by the simulator is a refinement of Go's random choice); expected events come from a token generator with independent decodings (xterm family only); fake Tty stands in for /dev/tty; Suspend/Resume excluded from C05 runs by design (C06 covers them).",
    technique="deterministic simulation: serialised seeded scheduler over instrumented source, fake tty, event ledger oracle, rapid shrinking"),
  "C06": dict(design="DESIGN.md §4 C06",
    text="Seeded search over simulated shutdown scenarios (Fini, double and overlapping Fini - whichever call returns first must find the tty stopped and closed and the library's goroutines gone -, Fini on a suspended screen and after a failed Resume, Suspend, Suspend/Resume cycles, Suspend/Resume/Fini racing each other) racing with input arrival, resizes, posters, pollers and drawing, with stalled pollers, full event/chunk queues and tty read errors. Because every blocking operation is mediated by the simulator, 'the caller never returns' is an exact deadlock verdict (nothing ready, no timer pending), not a timeout; busy loops are caught by a real-time watchdog and replayed by seed. Inertness after Fini and liveness after Resume are checked on the same runs.",
-   note="Trusted: simrt/simrewrite as for C05; fake Tty models /dev/tty (Drain wakes the reader with a deadline error); 'PollEvent returns nil at once' is read literally (a queued stale event after Fini is a violation).",
+   note="Trusted: simrt/simrewrite as for C05; fake Tty models /dev/tty (Drain wakes the reader with a deadline error; in a sixth of the runs it instead wakes the reader once with an empty read, which is all the Tty contract asks); 'PollEvent returns nil at once' is read literally (a queued stale event after Fini is a violation).",
    technique="deterministic simulation with fault injection: exact wait-for-graph deadlock detection under a seeded scheduler; read-error, stall and resize faults; rapid shrinking"),
 }
 
